@@ -403,6 +403,9 @@ def deck():
     cell("setitem/sections/by-object-attached-elsewhere", ["setitem", D, "sections", {"$obj": B}, C])
     cell("setitem/sections/by-object-not-a-child", ["setitem", D, "sections", {"$obj": C}, X])
     cell("setitem/properties/by-object", ["setitem", A, "properties", {"$obj": P}, Q])
+    cell("setitem/sections/by-slice", ["sec", "x1", "t", X, {}], ["setitem", D, "sections", {"$slice": [0, 1]}, X])
+    cell("setitem/sections/by-slice-attached-elsewhere", ["setitem", D, "sections", {"$slice": [0, 1]}, C])
+    cell("setitem/properties/by-slice", ["setitem", A, "properties", {"$slice": [0, 1]}, Q])
     cell("setitem/sections/index-not-an-integer", ["setitem", D, "sections", enc(1.0), X])
     cell("setitem/sections/by-name", ["setitem", D, "sections", "b", X])
     cell("setitem/sections/by-name-missing", ["setitem", D, "sections", "nope", X])
@@ -483,6 +486,14 @@ def deck():
             cell("new_id/%s/malformed" % on, ["new_id", obj, bad])
         for odd in ODD_IDS:
             cell("new_id/%s/noncanonical" % on, ["new_id", obj, odd])
+    # an unnamed object (its id is its name) gets a new id while a sibling carries that id text as its name
+    for oid in [GOOD_ID] + ODD_IDS[:2]:
+        cell("new_id/sec/unnamed-beside-sibling-named-like-the-id", ["sec", None, "t", A, {}], ["sec", GOOD_ID, "t", A, {}],
+             ["new_id", len(BASE), oid])
+        cell("new_id/prop/unnamed-beside-sibling-named-like-the-id", ["prop", None, enc([1]), "int", A, {}],
+             ["prop", GOOD_ID, enc([1]), "int", A, {}], ["new_id", len(BASE), oid])
+        cell("new_id/sec/two-unnamed-siblings-same-id", ["sec", None, "t", A, {}], ["sec", None, "t", A, {}],
+             ["new_id", len(BASE), oid], ["new_id", len(BASE) + 1, oid])
     for oid in [GOOD_ID] + BAD_IDS + ODD_IDS:
         cell("ctor/doc/oid", ["doc", {"oid": oid}])
         cell("ctor/sec/oid", ["sec", "n", "t", B, {"oid": oid}])
